@@ -79,7 +79,7 @@ PROPS = {
     ),
     "C07": dict(
         module="SeliumModel.Props.C07",
-        suites=["topic"],
+        suites=["topic", "registry"],
         level="proof",
         rule="TopicName::try_from / create / Display on: hand-picked strings, boundary lengths 2/3/4/63/64/65 in characters with 1-, 2- and 3-byte characters, every ASCII character in four positions, every boundary (lo-1, lo, hi, hi+1) of all ranges of the regex crate's [\\w-] class, random strings over an alphabet with slashes, multi-byte characters and the reserved word, structured mostly-valid names; create() vs try_from(printed form); "
              "distinct = distinct case lines; none counted trivial",
@@ -178,7 +178,7 @@ PROPS = {
     ),
     "C11": dict(
         module="SeliumModel.Props.C11",
-        suites=["reqrep", "pubsub"],
+        suites=["reqrep", "pubsub", "registry"],
         level="proof",
         rule="reqrep: the real reqrep::Topic (and through it sink::Router) in a guarded child process (a poll that never returns is observed as a hang) under the wake-driven executor, around scripted requestor / replier sockets; hand-written scenarios for one-sided states, slow requestors with several replies, racing late repliers, unexpected frame kinds, failing replier sinks, forged / missing / malformed / unknown cid, shutdown, plus seeded random histories; every child call, poll result and waker holder compared with the Lean model (HashMap / StreamMap order taken from the observed run); monitors reconstruct the exchange from the mocks' logs; stream scripts include frames of unexpected kinds (Ok, Error, BatchMessage, Register*) from requestors and repliers and replier sinks that refuse a request (the oversize-after-tag case); distinct = distinct case lines",
         trusted_base=COMMON_TRUST + [
@@ -186,7 +186,7 @@ PROPS = {
             "modelled by hand: sink::Router (sink/router.rs), reqrep::Topic::poll (topic/reqrep.rs)",
             "str::parse::<usize> as modelled by parseUsize (optional +, digits, < 2^64)",
         ],
-        assumptions=["router half; the registration half (handle_stream, Ok-before-enqueue, kind mismatch) is the Server/Registry model and the registry e2e suite when present in Props/C11.lean"],
+        assumptions=["a first frame that is not a registration asks for no role: the stream is closed without Ok, which the client library reports as STREAM_CLOSED_PREMATURELY", "registry suite: raw peers over loopback QUIC (every first frame kind, names only a peer bypassing the library can send, every role pair on one topic, unexpected frames mid-stream, then well-behaved library clients probe the topic)"],
         explanation="",
     ),
     "C03": dict(
@@ -214,6 +214,19 @@ PROPS = {
             "modelled by hand: Requestor::request / queue_request / poll_replies (requestor.rs), RequestId",
         ],
         assumptions=["fewer than 2^32 requests per requestor stream (for id uniqueness)", "the replier echoes the headers of the request it answers (the library Replier does)"],
+        explanation="",
+    ),
+    "C17": dict(
+        module="SeliumModel.Props.C17",
+        suites=["registry"],
+        level="proof",
+        rule="registry suite over loopback QUIC incl. the stall case: a raw subscriber on topic A that registers and never reads, 2.5 MB published to A (QUIC flow control fills, A's router blocks), 130 further registrations on A over several connections (more than the channel holds), then a library pub/sub round trip on a fresh topic B within a deadline; other cases: every first frame kind, invalid names, role mismatches, unexpected frames; answers compared with the Lean registry model; distinct = distinct case lines",
+        trusted_base=COMMON_TRUST + [
+            "tokio::sync::Mutex, futures mpsc capacity semantics; quinn flow control (the stall is exhibited, not proved)",
+            "translator: detects whether an awaited send() lies in the lexical scope of the topics.lock() guard in handle_stream",
+            "modelled by hand: handle_stream's decision logic and the task/lock transition system (Server/Registry.lean)",
+        ],
+        assumptions=["the lock holder is eventually scheduled (tokio fairness)", "a router blocked on a non-reading subscriber stops draining its own channel by design (back-pressure)"],
         explanation="",
     ),
 }
